@@ -146,7 +146,16 @@ public:
         }
 
         // Solver object
-        m_eigs = new SymEigsSolver<SVDMatOp<Scalar>>(*m_op, ncomp, ncv);
+        // Do not leak the operator if the arguments are rejected
+        try
+        {
+            m_eigs = new SymEigsSolver<SVDMatOp<Scalar>>(*m_op, ncomp, ncv);
+        }
+        catch (...)
+        {
+            delete m_op;
+            throw;
+        }
     }
 
     // Destructor
